@@ -548,9 +548,13 @@ def r6_lambdas(body, log, ret_macros=True):
         names.append(name)
         n += 1
     log.note("R6", n)
-    if re.search(r"\[[&=]?\w*\]\s*\((?:[^()]*\))\s*\{", body) or re.search(r"\[this\]", body):
-        raise ExtractionError(f"{log.fn}: an unconverted lambda survives R6")
     return body, names
+
+
+def check_no_lambda(body, fn):
+    """after the per-target substitutions (which may consume lambdas passed inline to std algorithms)"""
+    if re.search(r"\[[&=]?\w*\]\s*\((?:[^()]*\))\s*(?:mutable\s*)?\{", body) or re.search(r"\[this\b", body):
+        raise ExtractionError(f"{fn}: an unconverted lambda survives R6 and the per-target substitutions")
 
 
 def r9_throw(body, log, ret="0", is_void=False):
@@ -824,6 +828,7 @@ def extract_fn(fn, mutate=False):
         body, k = re.subn(r"(?<![\w.>])" + re.escape(cxx) + r"\s*\(", c + "(", body)
         log.note(f"call:{cxx}->{c}", k)
     body = apply_subs(body, fn.subs, log, "S")
+    check_no_lambda(body, fn.name)
     if fn.dispatch:
         stnum, body = r14_goto_dispatch(body, log)
         binds.update({"st_" + k_: str(v_) for k_, v_ in stnum.items()})   # loop contracts name the states as @st_<label>@
